@@ -816,7 +816,12 @@ func (in *Interp) deepEq(a, b Value, seen map[[2]*Obj]bool, depth int) *Term {
 func iRuneWidth(in *Interp, fn *ssa.Function, a []Value) Value {
 	r := a[len(a)-1].(*Term)
 	if r.op == OpConst {
-		return in.intTerm(runewidthRune(rune(signExt(r.val, r.sort))))
+		rv := rune(signExt(r.val, r.sort))
+		n, e := rwNarrow.RuneWidth(rv), rwEastAsianCond.RuneWidth(rv)
+		if ea := in.rwEastAsian(); n != e && !ea.IsFalse() {
+			return in.tt.Ite(ea, in.intTerm(e), in.intTerm(n))
+		}
+		return in.intTerm(n)
 	}
 	if in.branch(in.tt.Bin(OpUlt, in.tt.Resize(r, 64, true), in.tt.Const(64, 0x80))) {
 		isP := in.tt.And(in.tt.Bin(OpSle, in.tt.Const(r.sort, 0x20), r), in.tt.Bin(OpSle, r, in.tt.Const(r.sort, 0x7e)))
